@@ -21,6 +21,12 @@ class C16(WrapHarness):
                             continue
                         out.append({'feat': 'full', 'algo': algo, 'sep': 'A', 'split': 'H', 'bw': False, 'le1': le1,
                                     'le2': le2, 'trail': trail, 'k': 3 if q else 4, 'imax': 1 if q else 2, 'wmax': 1 << 16})
+        # o1 and o2 with different algorithms (the statement quantifies over o1 and o2 independently)
+        for a1, a2 in (('O', 'F'), ('F', 'O')):
+            out.append({'feat': 'full', 'algo': a1, 'algo2': a2, 'sep': 'A', 'split': 'H', 'bw': False, 'le1': 'LF',
+                        'le2': 'LF', 'trail': False, 'k': 3 if q else 4, 'imax': 1, 'wmax': 1 << 16})
+            out.append({'feat': 'full', 'algo': a1, 'algo2': a2, 'sep': 'A', 'split': 'H', 'bw': False, 'le1': 'LF',
+                        'le2': 'LF', 'trail': True, 'k': 0, 'imax': 1, 'wmax': 1 << 16, 'ptmpl': PARA_TEMPLATES[1]})
         for t in (PARA_TEMPLATES[:1] if q else PARA_TEMPLATES):
             for algo in ('F', 'O'):
                 for le1, le2 in ((('LF', 'LF'),) if q else (('LF', 'LF'), ('CRLF', 'LF'), ('LF', 'CRLF'))):
@@ -43,7 +49,7 @@ class C16(WrapHarness):
         inp = {'text': para, 'ii': ii, 'si': si, 'W': W1, 'W2': W2}
         I.inputs = inp
         c1 = dict(cfg, le=cfg['le1'])
-        c2 = dict(cfg, le=cfg['le2'])
+        c2 = dict(cfg, le=cfg['le2'], algo=cfg.get('algo2', cfg['algo']))
         filled = self.run_fill(I, c1, inp)
         le1 = [(13, 1), (10, 1)] if cfg['le1'] == 'CRLF' else [(10, 1)]
         le2 = [(13, 1), (10, 1)] if cfg['le2'] == 'CRLF' else [(10, 1)]
@@ -53,7 +59,7 @@ class C16(WrapHarness):
         if nl == 0:
             raise Infeasible()
         ftxt = Txt(f + (le1 if cfg['trail'] else []))
-        o2 = mk_options(I, W2, cfg['le2'], '', '', cfg['bw'], cfg['algo'], cfg['sep'], cfg['split'])
+        o2 = mk_options(I, W2, cfg['le2'], '', '', cfg['bw'], c2['algo'], cfg['sep'], cfg['split'])
         re = T(I.run('refill', [to_str(ftxt, 'filled'), o2]))
         direct = self.run_fill(I, c2, inp, W=W2)
         out = {'filled': filled, 'refilled': re, 'direct': Txt(direct.chars + (le2 if cfg['trail'] else []))}
@@ -62,7 +68,7 @@ class C16(WrapHarness):
 
     def native(self, nat, cfg, inp):
         c1 = dict(cfg, le=cfg['le1'])
-        c2 = dict(cfg, le=cfg['le2'])
+        c2 = dict(cfg, le=cfg['le2'], algo=cfg.get('algo2', cfg['algo']))
         st, f = self.native_fill(nat, c1, inp)
         if st != 'OK':
             return st, f
